@@ -177,7 +177,20 @@ def drive(
     holder = {"last": None}
 
     def body(case):
-        mm = check_case(case)
+        try:
+            mm = check_case(case)
+        except Violation:
+            raise
+        except Exception:
+            # a crash of the machinery itself: keep the case for debugging (reported as a harness error, exit 2)
+            try:
+                d = os.path.join(os.path.dirname(os.path.dirname(os.path.abspath(__file__))), "evidence", "replay")
+                os.makedirs(d, exist_ok=True)
+                with open(os.path.join(d, f"HARNESS-{prop}-{name}.json"), "w") as f:
+                    json.dump({"property": prop, "check": name, "case": jsonable(case)}, f)
+            except Exception:  # noqa: BLE001
+                pass
+            raise
         if mm is None:
             return
         kid = known_matcher(case, mm)
